@@ -368,6 +368,17 @@ def gen_gate(repo, out, report):
                 if is_p(y, '?'): return True
             return False
         locals_first = i_def is not None and q3(i_def) and (i_loc is None or i_def < i_loc)
+    # the binary reader is configured with the same feature set as the validator (`parser.set_features(wasm_features)`),
+    # and both get the set computed by get_wasmparser_wasm_features
+    btoks = list(flat(body.items))
+    def has_seq(ts, names):
+        for i in range(len(ts) - len(names) + 1):
+            if all((is_id(ts[i + j], n) if n.isidentifier() else is_p(ts[i + j], n)) for j, n in enumerate(names)): return i
+        return None
+    i_set = has_seq(btoks, ['parser', '.', 'set_features'])
+    i_loop = has_seq(btoks, ['parser', '.', 'parse_all'])
+    reader_features = i_set is not None and i_loop is not None and i_set < i_loop and 'wasm_features' in text(btoks[i_set:i_set + 5])
+    validator_features = has_seq(btoks, ['Validator', '::', 'new_with_features']) is not None
     kinds = [k for k, _, _ in table]
     if len(set(kinds)) != len(kinds): raise Refuse('a payload kind occurs in two arms')
     meths = sorted(set(mm for _, _, mm in table if mm))
@@ -380,13 +391,15 @@ def gen_gate(repo, out, report):
          'Definition arm (k : payload_kind) : arm_kind :=\n  match k with\n' + '\n'.join('  | PK_%s => %s' % (k, c + (' VM_' + mm if mm else '')) for k, c, mm in table) + '\n  end.',
          'Definition operator_validated_before_use : bool := %s.' % ('true' if op_first else 'false'),
          'Definition body_end_validated : bool := %s.' % ('true' if finish_checked else 'false'),
-         'Definition locals_validated_before_use : bool := %s.' % ('true' if locals_first else 'false')]
+         'Definition locals_validated_before_use : bool := %s.' % ('true' if locals_first else 'false'),
+         'Definition reader_uses_configured_features : bool := %s.' % ('true' if reader_features else 'false'),
+         'Definition validator_uses_configured_features : bool := %s.' % ('true' if validator_features else 'false')]
     content = '\n'.join(o) + '\n'
     path = os.path.join(out, 'Gate.v')
     try:
         if open(path).read() != content: open(path, 'w').write(content)
     except OSError: open(path, 'w').write(content)
-    return {'arms': len(table), 'classes': {c: sum(1 for _, cc, _ in table if cc == c) for c in sorted(set(c for _, c, _ in table))}, 'operator_validated_before_use': op_first, 'body_end_validated': finish_checked, 'locals_validated_before_use': locals_first}
+    return {'arms': len(table), 'classes': {c: sum(1 for _, cc, _ in table if cc == c) for c in sorted(set(c for _, c, _ in table))}, 'operator_validated_before_use': op_first, 'body_end_validated': finish_checked, 'locals_validated_before_use': locals_first, 'reader_uses_configured_features': reader_features, 'validator_uses_configured_features': validator_features}
 
 
 def run(repo, out, report, g):
